@@ -220,6 +220,12 @@ class SparseMatrixBasis(MatrixBasis):
             basis = tuple([csr_matrix(b) for b in basis])
         elif type(basis[0]) != csr_matrix:
             raise TypeError(f"MatrixBasis doesn't support type {type(basis[0])}.")
+        else:
+            # do not adopt the caller's list and matrices
+            basis = tuple(copy.deepcopy(list(basis)))
+        # make _basis immutable
+        for b in basis:
+            b.data.setflags(write=False)
         self._basis: Tuple[csr_matrix, ...] = basis
         self._dim = basis[0].shape[0]
 
@@ -296,6 +302,7 @@ class VectorizedMatrixBasis(Basis):
                 vectorized_b.setflags(write=False)
             else:
                 vectorized_b = b.toarray().flatten()
+                vectorized_b.setflags(write=False)
             temp_basis.append(vectorized_b)
         self._basis: Tuple[np.ndarray, ...] = tuple(temp_basis)
 
